@@ -23,6 +23,7 @@ package resource_updater
 // caller under contract with another list type fails an obligation instead of silently getting this frame.
 //@ func sigs.k8s.io/controller-runtime/pkg/client.Client.List
 //@   props C20
+//@   note ASSUMED (external interface, no body): decodes into the list object only, the Items array and everything reachable from it is new memory, may fail; which objects are selected is NOT modelled (the sums are stated over whatever was listed). listedQueues()/listedPodGroups() are ghost names for the list object of the latest call.
 //@   requires [knownListType] list != nil && (typeis(list, "*v2.QueueList") || typeis(list, "*v2alpha2.PodGroupList"))
 //@   modifies fields(qlOf(list)), fields(pglOf(list)), listedQueues(), listedPodGroups()
 //@   ensures typeis(list, "*v2.QueueList") ==> listedQueues() == qlOf(list) && listedPodGroups() == old(listedPodGroups())
